@@ -17,7 +17,7 @@ def _funcs():
             m.Block1014.write, m.Block1014.seek, m.Block1014.finalise, m.VbsReader.__next__]
 
 
-def history(writer, blocked, nrec, fins, maxlen, readable=True, optimize=0, seekable=True):
+def history(writer, blocked, nrec, fins, maxlen, readable=True, optimize=0, seekable=True, many=False):
     nblocks = (nrec * (maxlen + 4) + 4 * (1 + len(fins))) // 1012 + 2 + len(fins)
 
     def h():
@@ -29,7 +29,7 @@ def history(writer, blocked, nrec, fins, maxlen, readable=True, optimize=0, seek
         vals = [Source('pan%d' % i, 't', n).rope() for i, n in enumerate(ns)] if writer != 'vbs' else None
 
         def rp():
-            a = {'kind': 'history', 'args': {'writer': writer, 'blocked': blocked, 'lengths': [ev(n) for n in ns], 'fins': list(fins), 'readable': readable, 'seekable': seekable,
+            a = {'kind': 'history', 'args': {'writer': writer, 'blocked': blocked, 'lengths': [ev(n) for n in ns], 'fins': list(fins), 'readable': readable, 'seekable': seekable, 'many': many,
                                             'content': [concretize(x, ev) for x in (recs if writer == 'vbs' else vals)]}}
             if optimize:
                 a['mode'] = '-O'
@@ -43,8 +43,13 @@ def history(writer, blocked, nrec, fins, maxlen, readable=True, optimize=0, seek
             items = [{'MTI': '1144', 'DE2': v} for v in vals]
         w.__enter__()
         bound_close = w.close               # a callable taken before the first finalisation (an ExitStack callback, `finish = writer.close`)
-        for it in items:
-            w.write(it)
+        if many:
+            # the records arrive in more than one step: a batch through write_many, then a single write
+            w.write_many(items[:-1])
+            w.write(items[-1])
+        else:
+            for it in items:
+                w.write(it)
         snap = None
         for k, fin in enumerate(fins):
             core.FUEL.set(nblocks + 4)
@@ -119,6 +124,11 @@ def obligations(tier):
                                   history(writer, blocked, nrec, fins, maxlen), 120,
                                   '%d record(s) of length 1..%d, finalisations %s' % (nrec, maxlen, '+'.join(fins)), _funcs,
                                   'more than %d finalisations; writes after a finalisation' % 3))
+    for blocked in (False, True):
+        for fins in (('close',), ('exit',), ('close', 'exit')):
+            obs.append(Ob('ipm/%s/write_many-then-write/2rec/%s' % ('blocked' if blocked else 'unblocked', '+'.join(fins)),
+                          history('ipm', blocked, 2, fins, 99, many=True), 120,
+                          'two records: the first through write_many, the second through write, then the finalisations', _funcs))
     for writer in ('vbs', 'ipm'):
         for fins in (('close',), ('exit',), ('close', 'exit')):
             obs.append(Ob('%s/blocked/write-only-file/1rec/%s' % (writer, '+'.join(fins)), history(writer, True, 1, fins, 2500 if writer == 'vbs' else 99, readable=False), 120,
